@@ -120,6 +120,12 @@ func (m *multi) observe() *obs {
 
 func bodyMulti(c *hk.Ctx, prop string) {
 	s := newSys(c)
+	if prop == "C04" && c.W(6, "reuse-unlocked-tasks") == 5 {
+		// the core's knob: unlocked running tasks may be claimed by a new environment (on this tree such
+		// a deployment never completes - the claimed roles stay INACTIVE - but ownership moves meanwhile)
+		s.reuse = true
+		c.Count("probe.reuse_knob_on")
+	}
 	sc := &scenario{}
 	c.Scenario = sc
 	events = nil
